@@ -16,7 +16,7 @@ from typing import Any, Callable, Dict, List, Optional
 
 from . import driver
 
-REPLAY_DIR = os.path.join(driver.VERIF_DIR, "replays")
+REPLAY_DIR = os.environ.get("VERIF_REPLAY_DIR") or os.path.join(driver.VERIF_DIR, "replays")
 
 
 def _has_sig(spec: Dict[str, Any], plan: Dict[str, Any], info: Dict[str, Any], sig: str) -> Optional[Dict[str, Any]]:
